@@ -124,9 +124,6 @@ func phaseEquivalence(r *lib.Run) {
 		case !oks[0] && !oks[1] && !oks[2] && !oks[3]:
 			// agreement, but the generator meant this set to be valid
 			r.Count("equiv.outcome.all-refuse")
-			if os.Getenv("VERIF_C19_DEBUG") != "" {
-				fmt.Printf("DEBUG all-refuse: %s | %v\n", fr.Flag.Err, s.KVs)
-			}
 			r.Sample(detail(map[string]any{"note": "valid set refused by every front end"}))
 		default:
 			r.Count("equiv.outcome.accept-refuse-mismatch")
@@ -255,8 +252,8 @@ func compareFields(r *lib.Run, s *settingSet, fr frontResults, detail func(map[s
 		if (p == "azblob_proxy" || sectionOf(p) == "azblob_proxy") && s.hasTag("azblob-no-tenant_id") {
 			class = "[no-tenant_id]"
 		}
-		if _, isSection := map[string]bool{"present": true, "absent": true}[vy]; isSection || vf == "present" || vf == "absent" {
-			sectionDiffers[p] = true
+		if isSectionMarker(vy) || isSectionMarker(vf) {
+			sectionDiffers[p] = true // report an optional section once, not field by field
 		}
 		kindOf := "explicitly given"
 		if !explicitPath[p] {
@@ -267,6 +264,8 @@ func compareFields(r *lib.Run, s *settingSet, fr frontResults, detail func(map[s
 			detail(map[string]any{"path": p, "flag_value": vf, "env_value": ve, "mixed_value": vm, "yaml_value": vy}))
 	}
 }
+
+func isSectionMarker(v string) bool { return v == "present" || v == "absent" }
 
 // ---------------------------------------------------------------- invalid classes
 
@@ -423,6 +422,8 @@ func phaseBinaryEquiv(r *lib.Run, m *material) {
 		env     [][]string
 		rend    []rendering
 		results []startResult
+		idx     int
+		rng     *rand.Rand
 	}
 	jobs := make([]*job, n)
 	for i := 0; i < n; i++ {
@@ -436,16 +437,18 @@ func phaseBinaryEquiv(r *lib.Run, m *material) {
 			s.set("profile_address", fmt.Sprintf("127.0.0.1:%d", lib.FreePort()))
 			tag = "profile_address=addr"
 		}
-		j := &job{s: s, tag: tag}
+		jobs[i] = &job{s: s, tag: tag, idx: 1000 + i, rng: r.Rng(fmt.Sprintf("binary-equiv/%d", i))}
+	}
+	render := func(j *job) {
+		j.syntax, j.args, j.env, j.rend = nil, nil, nil, nil
 		for _, syn := range []string{"argv", "env", "yaml-flag"} {
-			a, e, rd := binaryInput(rng, s, syn, m, 1000+i)
+			a, e, rd := binaryInput(j.rng, j.s, syn, m, j.idx)
 			j.syntax = append(j.syntax, syn)
 			j.args = append(j.args, a)
 			j.env = append(j.env, e)
 			j.rend = append(j.rend, rd)
 		}
 		j.results = make([]startResult, len(j.syntax))
-		jobs[i] = j
 	}
 	parallel(n, 6, func(k int) {
 		j := jobs[k]
@@ -453,9 +456,27 @@ func phaseBinaryEquiv(r *lib.Run, m *material) {
 		if j.tag == "profile_address=addr" {
 			want = 3
 		}
-		// the syntaxes of one set share directory and ports: one after the other
-		for i := range j.syntax {
-			j.results[i] = observeStart(j.args[i], j.env[i], want, 700*time.Millisecond)
+		for attempt := 0; attempt < 4; attempt++ {
+			render(j)
+			collision := false
+			// the syntaxes of one set share directory and ports: one after the other
+			for i := range j.syntax {
+				j.results[i] = observeStart(j.args[i], j.env[i], want, 700*time.Millisecond)
+				if j.results[i].Exited && strings.Contains(j.results[i].Log, "address already in use") {
+					collision = true
+				}
+			}
+			if !collision {
+				break
+			}
+			// a foreign process took one of the ports (the machine is shared): this
+			// says nothing about the configuration; take fresh ports and start over
+			r.Count("binary-equiv.port-collision-retried")
+			j.s.set("http_address", fmt.Sprintf("127.0.0.1:%d", lib.FreePort()))
+			j.s.set("grpc_address", fmt.Sprintf("127.0.0.1:%d", lib.FreePort()))
+			if j.tag == "profile_address=addr" {
+				j.s.set("profile_address", fmt.Sprintf("127.0.0.1:%d", lib.FreePort()))
+			}
 		}
 	})
 	for _, j := range jobs {
